@@ -37,6 +37,11 @@ TRUSTED = [
     "Coq 8.16.1 kernel and vm_compute; no axioms; no extraction",
 ]
 ASSUMPTIONS = [
+    "cross-load histories: the model has no state that outlives a load (every Font::load starts from "
+    "NameList::default(), C19_load_independent_of_history: even an arbitrary leftover interner content cannot change "
+    "the loaded font); that the implementation keeps none either (per thread, per process, per pool) is tied by the "
+    "history stream (2-4 loads of different fonts of one name family per process, each compared with loading that "
+    "UFO alone in a fresh process) and by the inventory of thread_local!/static sites",
     "failed saves / loads are compared by Ok-or-failure; WHICH failure is reported (error identity, and panic versus "
     "Err) is compared only when the failing glif tasks of the save fail alike: by C19_save_failure_is_some_tasks / "
     "C19_save_failure_uniform a parallel try_for_each reports the failure of some failing task. The one mixed case "
@@ -244,6 +249,92 @@ def store_ufo(ctx, ufo, k):
     return d
 
 
+def histories(ctx, sh, out, seq_bin, par_bin, threads, store_replay=True):
+    """Cross-load histories (hist.json): 2-4 loads (+ saves) of DIFFERENT fonts of one family (overlapping
+    glyph / group names; legacy fonts with glyph-named groups, a kerning-only font without glyphs, a v3
+    font) in one process, on the main thread or on one spawned thread, with the rayon pool reused. Every
+    step's observation must equal the sequential build's observation of that UFO ALONE in a fresh process
+    (which every build's solo run must equal, too): no state may survive a load."""
+    hf = os.path.join(out, "hist.json")
+    st = {"histories": 0, "history_steps_compared": 0, "solo_runs": 0}
+    if not os.path.exists(hf):
+        return st
+    hs = json.load(open(hf))
+    if not hs:
+        return st
+    ks = sorted({k for h in hs for k in h["steps"]})
+    jobs = [("seq", seq_bin, None, ["hist", "seq"])] + [("par%d" % t, par_bin, t, ["hist", "par%d" % t]) for t in threads]
+    jobs += [("seq", seq_bin, None, ["solo", "seq", k]) for k in ks] + [("par4", par_bin, 4, ["solo", "par4", k]) for k in ks]
+
+    def one(job):
+        tag, b, t, args = job
+        return job, sh([b, "c19"] + args + ["--out", out], timeout=3000, env={"RAYON_NUM_THREADS": str(t)} if t else {})
+    with concurrent.futures.ThreadPoolExecutor(max_workers=8) as ex:
+        for job, (rc, o) in ex.map(one, jobs):
+            if rc != 0:
+                ctx.disagreements.append({"what": "harness c19 %s failed (rc %d)" % (" ".join(job[3]), rc), "output": o[-800:]})
+    if ctx.disagreements:
+        return st
+
+    def obs(tag, name):
+        return comparable(open(os.path.join(out, "res", tag, name)).read())
+    found = []
+    for k in ks:
+        st["solo_runs"] += 2
+        ref = obs("seq", "solo_%s.txt" % k)
+        got = obs("par4", "solo_%s.txt" % k)
+        if got != ref:
+            found.append({"history": ["%s alone" % k], "step": 0, "ufo": k, "build": "par4 (fresh process)", "ref": ref, "got": got, "steps": [k]})
+    for h in hs:
+        st["histories"] += 1
+        for tag in ["seq"] + ["par%d" % t for t in threads]:
+            for i, k in enumerate(h["steps"]):
+                st["history_steps_compared"] += 1
+                ref = obs("seq", "solo_%s.txt" % k)
+                got = obs(tag, "hist_%s_%d_%s.txt" % (h["id"], i, k))
+                if got != ref:
+                    found.append({"history": ["%s (%s)" % (a, b) for a, b in zip(h["steps"], h.get("members", h["steps"]))],
+                                  "history_id": h["id"], "thread": h.get("thread"), "step": i, "ufo": k, "build": tag,
+                                  "ref": ref, "got": got, "steps": h["steps"]})
+    seen = set()
+    stored = 0
+    for v in sorted(found, key=lambda v: (len(v["steps"]), v["build"] != "par1", v["build"])):
+        key = (tuple(v["steps"]), v["step"])
+        if key in seen:
+            continue
+        seen.add(key)
+        ref, got = v.pop("ref"), v.pop("got")
+        i = next((j for j in range(min(len(ref), len(got))) if ref[j] != got[j]), min(len(ref), len(got)))
+        a = ref[i] if i < len(ref) else "<end>"
+        b = got[i] if i < len(got) else "<end>"
+        c = next((j for j in range(min(len(a), len(b))) if a[j] != b[j]), min(len(a), len(b)))
+        lo = max(0, c - 150)
+        v.update({"part": "a load inside a history of several loads in one process", "first_difference_line": i,
+                  "alone_in_a_fresh_process_sequential_build": a[:30] + " ... " + a[lo:c + 400],
+                  "inside_the_history": b[:30] + " ... " + b[lo:c + 400],
+                  "demand": "every load of a history gives what loading that UFO alone gives (and what the sequential build gives)"})
+        if store_replay and stored < 2:
+            v["ufo_copy"] = store_history(ctx, out, v)
+            stored += 1
+        ctx.violations.append(v)
+    return st
+
+
+def store_history(ctx, out, v):
+    import driver
+    d = os.path.join(driver.VERIF, "replays", "C19-history-%s-seed%d-%d" % (v.get("history_id", "solo"), ctx.seed, int(time.time() * 1000) % 10**8))
+    try:
+        os.makedirs(os.path.join(d, "ufos"), exist_ok=True)
+        for k in set(v["steps"]):
+            shutil.copytree(os.path.join(out, "ufos", k), os.path.join(d, "ufos", k))
+            shutil.copy(os.path.join(out, "ufos", k + ".json"), os.path.join(d, "ufos", k + ".json"))
+        json.dump([{"id": v.get("history_id", "h"), "steps": v["steps"], "thread": v.get("thread") or "main"}],
+                  open(os.path.join(d, "hist.json"), "w"))
+    except Exception as ex:
+        return "could not store: %r" % (ex,)
+    return d
+
+
 def model_check(ctx, out, ufo_ids, built):
     """Coq model's prediction vs the observed dump of the sequential build (the rayon builds were
     compared with the sequential one line by line, the TM line included)"""
@@ -337,10 +428,18 @@ def run(ctx, known, built):
             ctx.disagreements.append({"what": "harness c19 run %s failed (rc %d)" % (tag, rc), "output": o[-1500:]})
     if ctx.disagreements:
         return
-    ufo_ids = sorted(d for d in os.listdir(os.path.join(out, "ufos")) if os.path.isdir(os.path.join(out, "ufos", d)))
+    ufo_ids = sorted(d for d in os.listdir(os.path.join(out, "ufos")) if os.path.isdir(os.path.join(out, "ufos", d))
+                     and os.path.exists(os.path.join(out, "res", "seq", d + ".txt")))      # family fonts: history stream
     st = compare(ctx, out, known_ids, THREADS, ufo_ids)
     ctx.obligation("differential:C19 rayon build x %s threads x %d repetitions vs sequential build" % (THREADS, reps),
                    not ctx.violations, "parallel and sequential results differ")
+    t0 = time.time()
+    nv = len(ctx.violations)
+    hst = histories(ctx, sh, out, ctx.harness, par_bin, THREADS)
+    ctx.timings["histories"] = round(time.time() - t0, 1)
+    ctx.obligation("differential:C19 cross-load histories (%d histories, %d steps) vs loading alone / sequential build"
+                   % (hst["histories"], hst["history_steps_compared"]), len(ctx.violations) == nv,
+                   "a load inside a history differs from the load of that UFO alone")
     t0 = time.time()
     ncases, races = model_check(ctx, out, ufo_ids, built)
     ctx.timings["model"] = round(time.time() - t0, 1)
@@ -360,6 +459,7 @@ def run(ctx, known, built):
                                "glyphs_max": max(g["glyphs"] for g in gen), **st},
         "ufos_with_api_edit_script": sum(1 for k in ufo_ids if os.path.exists(os.path.join(out, "ufos", k + ".json"))
                                          and json.load(open(os.path.join(out, "ufos", k + ".json"))).get("script")),
+        "cross_load_histories": hst,
         "model_cases": ncases,
         "model_schedule_races_exercised": races,
         "traces_validated_against_impl": ncases,
@@ -383,6 +483,14 @@ def replay(ctx, path):
         return 1
     out = os.path.join(ctx.scratch, "c19r")
     shutil.copytree(src, out)
+    if os.path.exists(os.path.join(out, "hist.json")):
+        hst = histories(ctx, sh, out, ctx.harness, par_bin, THREADS, store_replay=False)
+        print("history:", inp.get("history"), "thread:", inp.get("thread"), "| steps compared:", hst["history_steps_compared"])
+        for v in ctx.violations[:10]:
+            print("DIFFERENT:", json.dumps(v)[:1800])
+        if not ctx.violations:
+            print("every load of the history equals the load of that UFO alone, in both builds")
+        return 1 if ctx.violations else 0
     res = run_bins(ctx, sh, out, ctx.harness, par_bin, 20, THREADS)
     ufo_ids = sorted(x for x in os.listdir(os.path.join(out, "ufos")) if os.path.isdir(os.path.join(out, "ufos", x)))
     known_ids = {k["id"] for k in driver.parse_known("C19")}
